@@ -11,7 +11,7 @@ from pvl.encoder import PVLEncoder, ODLEncoder, PDSLabelEncoder, ISISEncoder
 from pvl.collections import PVLGroup, PVLObject, PVLModule, OrderedMultiDict
 
 from .. import core
-from ..listmodel import Machine, MC
+from ..listmodel import Machine, MC, UserQty
 from ..histgen import HistGen
 from .c10 import C10
 
@@ -86,6 +86,21 @@ class M13(Machine):
                         [("K%d" % j, "V%d+%d" % (j, self.opi))
                          for j in range(300)]))
                     other.encode(real)
+                except Exception:   # noqa: BLE001
+                    pass
+            elif between and i and between[0] == "default-with-options":
+                # somebody else calls pvl.dumps() with options of their own
+                try:
+                    pvl.dumps(PVLModule([("k", "v"), ("g", PVLGroup(
+                        [("x", "a b c " * 20)]))]), **between[1])
+                except Exception:   # noqa: BLE001
+                    pass
+            elif between and i and between[0] == "register-quantity":
+                # somebody else teaches *their* encoder a quantity class
+                try:
+                    other = make_encoder(between[1], {})
+                    other.add_quantity_cls(UserQty, "value", "units")
+                    other.encode(PVLModule([("n", UserQty(3, "PIXEL"))]))
                 except Exception:   # noqa: BLE001
                     pass
             elif between and i:
@@ -198,8 +213,10 @@ class Gen13(HistGen):
                 ["datetime", "2010-05-06T07:08:09+00:00"],
                 ["datetime", "2010-05-06T07:08:09+03:00"],
                 ["datetime", "2010-05-06T07:08:09"]])}
-        if x < 0.98:
+        if x < 0.97:
             return {"q": [self.unique_int(), r.choice(["m", "km/s", "a b"])]}
+        if x < 0.985:
+            return {"uq": [r.randrange(1, 5000), r.choice(["PIXEL", "m"])]}
         return {"list": [{"list": [1, 2]}, {"s": "A"}]}
 
     def g_dumps(self, cid, mc, fail):
@@ -243,6 +260,17 @@ class Gen13(HistGen):
         elif x < 0.55:
             op.append(["busy", {"PVL": "ISIS", "ISIS": "PVL"}.get(
                 enc, r.choice(["PVL", "ODL", "ISIS"]))])
+            self.interleaved = True
+        elif x < 0.62:
+            op.append(["default-with-options",
+                       {"indent": r.choice([0, 1, 3, 6]),
+                        "width": r.choice([30, 60, 100]),
+                        **({"convert_group_to_object": False}
+                           if r.random() < 0.3 else {})}])
+            self.interleaved = True
+        elif x < 0.68:
+            op.append(["register-quantity",
+                       r.choice(["PVL", "ODL", "PDS3", "ISIS"])])
             self.interleaved = True
         return op
 
